@@ -88,9 +88,12 @@ class Discharger:
                 continue
             paths = None
             for op in ops:
-                if id(op.node) in self.R.handled_ops and \
-                        op.kind in ('subscript', 'del-subscript'):
+                if op.kind in ('subscript', 'del-subscript') and \
+                        id(op.node) in self.R.handled_ops:
                     # caught by a local handler: flows there, not out
+                    continue
+                if op.kind == 'call' and \
+                        (id(op.node), op.exc) in self.R.handled_ops:
                     continue
                 if op.kind == 'subscript':
                     if paths is None:
@@ -102,10 +105,12 @@ class Discharger:
                     why = self._call(fi, op, paths)
                 else:
                     why = (False, 'not analysed')
+                key = (id(op.node), op.exc) if op.kind == 'call' \
+                    else id(op.node)
                 if why[0]:
-                    self.reasons[id(op.node)] = why[1]
+                    self.reasons[key] = why[1]
                 else:
-                    self.open[id(op.node)] = (op, why[1])
+                    self.open[key] = (op, why[1])
         self.settings_getitem_sites()
         self._asserts()
 
@@ -808,8 +813,6 @@ class Discharger:
         node = op.node
         txt = op.desc
         exc = op.exc
-        if id(node) in self.R.handled_ops:
-            return (True, 'handled locally')
         f = node.func if isinstance(node, ast.Call) else None
         # flags.add('X')
         if isinstance(f, ast.Attribute) and f.attr == 'add' and \
